@@ -27,6 +27,7 @@ RULE = ('histories = random interleavings (length <= 6) of option updates (tempe
         'call is one event checked offline.  Non-trivial: an event with >= 2 alternatives whose '
         'arg-max is not alternative 0; distinct = hash of (object kind, sampler, mode, hard, '
         'rounded temperature, alpha).')
+RULE += ('  Round 3: Conv1d MPS models; a noisy (Gumbel, T in [3,20]) training sample followed by disable_sampling=True before summary()/export(); exported input / residual-sum quantizers compared with summary().')
 ASSUMPTIONS = [
     'the rules are keyed on the sampler that actually ran (observed), not on the configured one',
     'under disable_sampling nothing is sampled: the only claim is that theta is left bit-identical',
